@@ -57,7 +57,7 @@ deriving Repr
 
 inductive Layer
   | map (li : Nat) (fn : FnBeh) (ef : ErrBeh)
-  | flatMap (li : Nat) (fn : FnBeh)
+  | flatMap (li : Nat) (fn : FnBeh) (ef : ErrBeh)
   | retry (pol : Policy)
   | poll (li : Nat) (pf : PollBeh)
   | throttle
@@ -106,7 +106,7 @@ def retryLoop (pol : Policy) (inner : Nat → Outcome × Nat) : Nat → Nat → 
 def eval (script : List (Option Int × Nat)) : List Layer → Nat → Outcome × Nat
   | [], k => (scriptAt script k, k + 1)
   | .map li fn ef :: rest, k => let r := eval script rest k; (applyMap li fn ef r.1, r.2)
-  | .flatMap li fn :: rest, k => let r := eval script rest k; (applyMap li fn .none r.1, r.2)
+  | .flatMap li fn ef :: rest, k => let r := eval script rest k; (applyMap li fn ef r.1, r.2)
   | .retry pol :: rest, k => retryLoop pol (eval script rest) 16 1 k
   | .poll li pf :: rest, k =>
       let r := eval script rest k
@@ -120,8 +120,8 @@ def eval (script : List (Option Int × Nat)) : List Layer → Nat → Outcome ×
 /-- the exceptions a stack can legitimately deliver: raised by the callable or by a user function of one of its layers -/
 def Legit (layers : List Layer) : Tag → Prop
   | .callable _ _ => True
-  | .mapfn li => ∃ fn ef, Layer.map li fn ef ∈ layers ∨ Layer.flatMap li fn ∈ layers
-  | .errfn li => ∃ fn ef, Layer.map li fn ef ∈ layers
+  | .mapfn li => ∃ fn ef, Layer.map li fn ef ∈ layers ∨ Layer.flatMap li fn ef ∈ layers
+  | .errfn li => ∃ fn ef, Layer.map li fn ef ∈ layers ∨ Layer.flatMap li fn ef ∈ layers
   | .pollerr li => ∃ pf, Layer.poll li pf ∈ layers
 
 end MoreExec.Stack
